@@ -123,6 +123,56 @@ pub fn optimize_sources(
   sources
 }
 
+/// Entry points for the verification harness: one named pass applied to a whole `Sources`.
+#[cfg(samlang_verif)]
+pub mod verif_hooks {
+  pub const PASSES: &[&str] = &[
+    "conditional-constant-propagation",
+    "scalar-replacement",
+    "loop-optimizations",
+    "common-subexpression-elimination",
+    "local-value-numbering",
+    "dead-code-elimination",
+    "inlining",
+    "unused-name-elimination",
+  ];
+
+  /// Runs the named pass once (sequentially, on every function). Unknown names do nothing.
+  pub fn run_pass(
+    heap: &mut samlang_heap::Heap,
+    mut sources: samlang_ast::mir::Sources,
+    pass: &str,
+  ) -> samlang_ast::mir::Sources {
+    match pass {
+      "inlining" => {
+        let functions = std::mem::take(&mut sources.functions);
+        sources.functions = super::inlining::optimize_functions(functions, heap);
+      }
+      "unused-name-elimination" => super::unused_name_elimination::optimize_sources(&mut sources),
+      _ => {
+        let counter = heap.create_temp_counter();
+        for f in sources.functions.iter_mut() {
+          match pass {
+            "conditional-constant-propagation" => {
+              super::conditional_constant_propagation::optimize_function(f)
+            }
+            "scalar-replacement" => super::scalar_replacement::optimize_function(f),
+            "loop-optimizations" => super::loop_optimizations::optimize_function(f, &counter),
+            "common-subexpression-elimination" => {
+              super::common_subexpression_elimination::optimize_function(f, &counter)
+            }
+            "local-value-numbering" => super::local_value_numbering::optimize_function(f),
+            "dead-code-elimination" => super::dead_code_elimination::optimize_function(f),
+            _ => {}
+          }
+        }
+        heap.sync_temp_counter(&counter);
+      }
+    }
+    sources
+  }
+}
+
 #[cfg(test)]
 mod tests {
   use pretty_assertions::assert_eq;
